@@ -27,15 +27,18 @@ class Compiler:
         self.next_local_symbol_prefix = 1
         self.next_internal_symbol_prefix = 1
         self.times_file_compiled = collections.defaultdict(int)
-        self.include_depth = 0
         self.internal_prefix_to_state = {}
         self._verif_trace = [] if _VERIF else None
 
 
-    def compile_file(self, file, start, link_base):
+    def compile_file(self, file, start, link_base, include_depth=0):
         self.times_file_compiled[file.filename] += 1
         state = {
             "filename": file.filename,
+            # How many '.include's lead here. Kept with the statements of the
+            # file rather than counted while they run: a statement that is
+            # carried out late still knows where it stands
+            "include_depth": include_depth,
             "context": "file",
             "internal_symbol_prefix": f".internal{self.next_internal_symbol_prefix}.",
             "compiler": self,
@@ -335,17 +338,15 @@ class Compiler:
 
 
 
-    def compile_include(self, file, addr):
+    def compile_include(self, file, addr, include_depth=1):
         link_base = {
             "promise": Promise[int](f"LA{self.next_internal_symbol_prefix}"),
             "set_where": None
         }
 
-        self.include_depth += 1
         try:
-            code = self.compile_file(file, link_base["promise"], link_base)
+            code = self.compile_file(file, link_base["promise"], link_base, include_depth)
         finally:
-            self.include_depth -= 1
             # Also when an error aborts the included file half way: symbols it
             # has defined so far are expressed in terms of this promise
             if not link_base["promise"].settled:
